@@ -1,6 +1,7 @@
 //! `fend-verif-harness <stream>`: reads one case per line on stdin, runs the real
 //! fend code in-process (feature `verif-hooks`), prints one canonical answer per line.
 mod common;
+mod s_bigrat;
 mod s_biguint;
 mod s_text;
 
@@ -12,6 +13,9 @@ fn main() {
     common::silence_panics();
     let f: fn(&str) -> String = match stream {
         "biguint" => s_biguint::line,
+        "bigrat" => s_bigrat::line,
+        "eval" => s_text::eval_line,
+        "evalctx" => s_text::evalctx_line,
         "json" => s_text::json_line,
         "inline" => s_text::inline_line,
         "evalseq" => s_text::evalseq_line,
@@ -21,11 +25,34 @@ fn main() {
             std::process::exit(2);
         }
     };
+    // Watchdog: a case that runs longer than HARNESS_LINE_TIMEOUT_S (default 20 s) is answered
+    // `err timeout` and the process exits; the python side resumes after that line.
+    let limit: u64 = std::env::var("HARNESS_LINE_TIMEOUT_S").ok().and_then(|v| v.parse().ok()).unwrap_or(20);
+    let started = std::sync::Arc::new(std::sync::atomic::AtomicU64::new(0)); // ms since epoch of current line, 0 = idle
+    {
+        let started = started.clone();
+        std::thread::spawn(move || loop {
+            std::thread::sleep(std::time::Duration::from_millis(200));
+            let s = started.load(std::sync::atomic::Ordering::SeqCst);
+            if s != 0 && now_ms().saturating_sub(s) > limit * 1000 {
+                // stdout is flushed after every line, so exactly the lines before this one are out
+                println!("err timeout");
+                std::process::exit(3);
+            }
+        });
+    }
     let stdin = io::stdin();
-    let stdout = io::stdout();
-    let mut out = io::BufWriter::new(stdout.lock());
+    let mut out = io::stdout(); // not locked across lines: the watchdog must be able to print
     for l in stdin.lock().lines() {
         let l = l.expect("read");
-        writeln!(out, "{}", f(&l)).expect("write");
+        started.store(now_ms(), std::sync::atomic::Ordering::SeqCst);
+        let r = f(&l);
+        started.store(0, std::sync::atomic::Ordering::SeqCst);
+        writeln!(out, "{r}").expect("write");
+        out.flush().expect("flush");
     }
+}
+
+fn now_ms() -> u64 {
+    std::time::SystemTime::now().duration_since(std::time::UNIX_EPOCH).map(|d| d.as_millis() as u64).unwrap_or(0)
 }
